@@ -4,6 +4,9 @@
    library adds (integer <-> bytes, length checks, the error cases of libsodium's *_noclamp calls) is
    concrete.
 
+   ed25519_lib.point_scalar_mul / point_scalar_mul_base turn libsodium's refusal (nacl RuntimeError)
+   into ValueError ([scalarmult_error]); point_add does not.
+
    libsodium facts modelled (libsodium 1.0.18, crypto_scalarmult/ed25519/ref10/scalarmult_ed25519_ref10.c):
      crypto_scalarmult_ed25519_base_noclamp(n): t = n with bit 255 cleared; q = t*B;
         returns -1 (PyNaCl: nacl.exceptions.RuntimeError) if q is the identity or n is all-zero.
@@ -16,6 +19,7 @@ Import ListNotations.
 Open Scope N_scope.
 
 Definition nacl_runtime_error : exn := Foreign 2.   (* nacl.exceptions.RuntimeError *)
+Definition scalarmult_error : exn := ValueError.    (* "except nacl RuntimeError: raise ValueError" *)
 
 (* total little-endian fixed width encoding; equals int.to_bytes when the value fits *)
 Definition le_pad (w : nat) (v : N) : list N :=
@@ -40,7 +44,7 @@ Section EdLib.
   (* ed25519_lib.point_scalar_mul_base with an int / a 32-byte scalar *)
   Definition mul_base_n (n : N) : res (list N) :=
     let R := gmul (sodium_scalar n) gbase in
-    if (n =? 0) || g_is_zero R then Err nacl_runtime_error else Ok (penc R).
+    if (n =? 0) || g_is_zero R then Err scalarmult_error else Ok (penc R).
   Definition mul_base_int (n : N) : res (list N) := _ <- int_encode n ;; mul_base_n n.
   Definition mul_base_bytes (s : list N) : res (list N) :=
     if (length s =? ed_coord_len)%nat then mul_base_n (int_decode s) else Err TypeError.
@@ -48,12 +52,12 @@ Section EdLib.
   (* ed25519_lib.point_scalar_mul(int, encoded point) *)
   Definition mul_int (n : N) (p : list N) : res (list N) :=
     _ <- int_encode n ;;
-    if p_refused p then Err nacl_runtime_error else
+    if p_refused p then Err scalarmult_error else
     match pdec p with
-    | None => Err nacl_runtime_error
+    | None => Err scalarmult_error
     | Some P =>
       let R := gmul (sodium_scalar n) P in
-      if (n =? 0) || g_is_zero R then Err nacl_runtime_error else Ok (penc R)
+      if (n =? 0) || g_is_zero R then Err scalarmult_error else Ok (penc R)
     end.
 
   (* ed25519_lib.point_add on two encoded points *)
